@@ -9,6 +9,8 @@ import (
 	"io"
 	"net/http"
 	"os"
+	"regexp"
+	"runtime"
 	"strconv"
 	"strings"
 	"sync"
@@ -586,6 +588,11 @@ func execC02(c c02Case) (res c02Result, err error) {
 		return res, fail("C02: reading the closed results channel again yields %v %v %v", r, ok, got)
 	}
 	synctest.Wait()
+	// no goroutine of the attack is left behind: everything is quiescent now, so any goroutine
+	// that still runs vegeta library code (workers, the pacing loop, the DNS refresher) is a leftover
+	if left := c02AttackGoroutines(); len(left) > 0 {
+		return res, fail("C02: the attack has ended (results channel closed) but %d goroutine(s) of it are still alive:\n%s", len(left), strings.Join(left, "\n---\n"))
+	}
 	if atk.Stop() { // may or may not be the first Stop call, but never a second "first"
 		stopTrue++
 	}
@@ -598,6 +605,29 @@ func execC02(c c02Case) (res c02Result, err error) {
 	}
 	res.closedOK = true
 	return res, nil
+}
+
+// c02AttackGoroutines returns the stacks of goroutines that are executing code of the vegeta
+// library package (harness code lives in package lib_test and does not count).
+var c02LibFrame = regexp.MustCompile(`(?m)^\t\S*/lib/[a-z0-9]+\.go:\d+`) // non-test sources of package lib (harness files are zz_verif_*_test.go)
+
+func c02AttackGoroutines() []string {
+	buf := make([]byte, 1<<20)
+	buf = buf[:runtime.Stack(buf, true)]
+	if os.Getenv("VERIF_DEBUG_STACKS") != "" {
+		fmt.Println(string(buf))
+	}
+	var out []string
+	for _, g := range strings.Split(string(buf), "\n\n") {
+		// (inlined closures carry the caller's package in their name, so go by source file)
+		if c02LibFrame.MatchString(g) && !strings.Contains(g, "c02AttackGoroutines") {
+			if len(g) > 1200 {
+				g = g[:1200]
+			}
+			out = append(out, g)
+		}
+	}
+	return out
 }
 
 // runC02Bubble executes a case in its own bubble; a deadlock or goroutines left
